@@ -93,7 +93,13 @@ func updateLiquidityRewards(context vm_context.AccountVmContext) ([]*nom.Account
 	result := make([]*nom.AccountBlock, 0)
 
 	for {
-		if err := checkAndPerformUpdateEpoch(context, lastEpoch); err == constants.ErrEpochUpdateTooRecent || len(result) >= constants.MaxEpochsPerUpdate {
+		// the per-call limit is tested before checkAndPerformUpdateEpoch, which stores LastEpoch+1:
+		// the cursor only passes epochs whose reward is issued in this call
+		if len(result) >= constants.MaxEpochsPerUpdate {
+			liquidityLog.Debug("update limit reached - remaining epochs are rewarded by the next update", "epoch", lastEpoch.LastEpoch+1)
+			return result, nil
+		}
+		if err := checkAndPerformUpdateEpoch(context, lastEpoch); err == constants.ErrEpochUpdateTooRecent {
 			liquidityLog.Debug("invalid update - rewards not due yet", "epoch", lastEpoch.LastEpoch+1)
 			return result, nil
 		} else if err != nil {
